@@ -164,6 +164,9 @@ class World:
         self.res.count("duplicate_attaches")
         if via == "iadd":
             self.p += m
+        elif self.rng.random() < 0.4:
+            via = "attach-loading"
+            self.p.attach_module(m, loading=True)
         else:
             self.p.attach_module(m)
         return self.check((f"attach_dup_{via}", m.name))
@@ -174,6 +177,9 @@ class World:
         try:
             if via == "iadd":
                 self.p += self.other_mod
+            elif self.rng.random() < 0.4:
+                via = "attach-loading"
+                self.p.attach_module(self.other_mod, loading=True)      # (the loader's own keyword is part of the signature)
             else:
                 self.p.attach_module(self.other_mod)
         except ModuleOwnershipError:
@@ -280,7 +286,16 @@ class World:
         if with_foreign:
             self.res.count("foreign_refusals")
         try:
-            self.p += items
+            if items and all(isinstance(x, self.api.m.Module) for x in items) and self.rng.random() < 0.4:
+                # the library's own list type for groups of modules (what `>>` returns), bound to this project
+                from rv.modules.module import ModuleList
+                self.p += ModuleList(self.p, items)
+                desc.append("as-ModuleList")
+                self.res.count("iadd_module_lists")
+            elif self.rng.random() < 0.2:
+                self.p += list(items)          # (`+=` takes a module, a pattern or a LIST of them; other iterables are not part of it)
+            else:
+                self.p += items
             raised = False
         except ModuleOwnershipError:
             raised = True
